@@ -123,6 +123,7 @@ type Exec struct {
 	oneShots          int
 	oneShotLimit      int
 	inModel           int // >0 while a //verif:model function runs: its draws are solver-side only
+	replayModel       Model // non-nil: re-executing a counterexample (every draw pinned to its model value)
 	specMode          bool // speculative evaluation of a pure branch side (if-conversion)
 	noIfConv          bool
 }
@@ -610,7 +611,39 @@ func (ex *Exec) newSymInt(label string, t types.Type, record bool) *Term {
 		b := t.Underlying().(*types.Basic)
 		ex.draws = append(ex.draws, Draw{Name: name, Kind: "int", Bits: basicWidth(b), Unsigned: !isSigned(t), vars: []*Term{v}})
 	}
+	ex.pin(v)
 	return v
+}
+
+// pin fixes a fresh variable to its value in the counterexample being
+// re-executed (interpreter-level confirmation of a violation).
+func (ex *Exec) pin(v *Term) {
+	if ex.replayModel == nil {
+		return
+	}
+	c, ok := ex.replayModel[v.name]
+	if !ok {
+		return
+	}
+	var k *Term
+	switch v.sort.K {
+	case SBool:
+		k = ex.tt.Bool(c.u == 1)
+	case SBV:
+		k = ex.tt.BV(c.u, v.sort.W)
+	case SInt:
+		k = ex.tt.Int(c.bi)
+	case SF64:
+		k = ex.tt.F64(c.f)
+	default:
+		return
+	}
+	if v.sort.K == SF64 {
+		// bit-exact equality (fp.eq would identify +0/-0 and reject NaN)
+		ex.addPC(ex.tt.app("=", BoolSort, v, k))
+		return
+	}
+	ex.addPC(ex.tt.Eq(v, k))
 }
 
 func (ex *Exec) newSymBool(label string, record bool) *Term {
@@ -620,6 +653,7 @@ func (ex *Exec) newSymBool(label string, record bool) *Term {
 	if record && ex.inModel == 0 {
 		ex.draws = append(ex.draws, Draw{Name: name, Kind: "bool", vars: []*Term{v}})
 	}
+	ex.pin(v)
 	return v
 }
 
@@ -629,6 +663,7 @@ func (ex *Exec) newSymBytes(label string, n int, record bool) []*Term {
 	for i := range out {
 		v := ex.tt.Var(fmt.Sprintf("%s[%d]", name, i), ex.intSortFor(tUint8))
 		ex.pathVars = append(ex.pathVars, v)
+		ex.pin(v)
 		if ex.intMode {
 			ex.tt.setVarRange(v, big.NewInt(0), big.NewInt(255))
 			ex.addPC(ex.tt.IntCmp("<=", ex.tt.Int64(0), v))
@@ -678,7 +713,7 @@ func (ex *Exec) recordViolation(kind, msg, stack string, m Model) {
 
 // modelNow returns a model of the current path condition plus extra.
 func (ex *Exec) modelNow(extra ...*Term) (Res, Model) {
-	return ex.solve(extra, ex.allDrawVars(), true)
+	return ex.solve(extra, ex.pathVars, true)
 }
 
 func (ex *Exec) stackString() string {
